@@ -190,6 +190,7 @@ def step (st : St) (toks : List String) : Option (St × String × String) :=
       let all ← kv rest "all"
       some (st, all, all)
   | "cberr" :: _ => some (st, "that-error", "that-error")   -- C04: a callback's error aborts the copy with that error
+  | "slotcancel" :: _ => some (st, "ok", "ok")   -- runtime monitor (C02, C04): a waiter for the only slot is cancelled; error returned, closed, rerun completes, no crash
   | "gauge" :: _ => some (st, "ok", "ok")     -- runtime monitor (C04): in-flight ≤ Concurrency
   | ["once"] => some (st, "ok", "ok")         -- runtime monitor (C04): one fetch / one push per node
   | ["closed"] => some (st, if closedNow st then "1" else "0", "1")
